@@ -22,11 +22,22 @@ def pipe_case(t, rng, group):
     h = rng.choice(HEADS)
     prefix = ([("root_attach", {})] if ra else []) + [h]
     base = tx.fresh(t, 1)
-    _, _, marked = tx.run_impl(prefix, base)
+    lines0 = []
+    if ra:
+        a_ra = proto.enc_tree(base)
+        res_ra, _, base = tx.run_impl([("root_attach", {})], base)
+        lines0.append(Line("corr", "apply", ["root_attach", a_ra], res_ra))
+    # "after head marking": the marking step is part of the pipeline the property speaks about
+    a0 = proto.enc_tree(base)
+    res_h, _, marked = tx.run_impl([h], base)
+    hs = tx.call_str(h[0], h[1])
+    lines0.append(Line("corr", "apply", [hs, a0], res_h))
+    if marked is not None:
+        lines0.append(Line("pred", "P.C15", [hs, a0, res_h]))
     a = proto.enc_tree(marked)
     disc = max(len(trees.terminal_blocks(n)) for n in trees.preorder(marked) if n.children) > 1
     res_split, _, split = tx.run_impl([("boyd_split", {})], marked)
-    lines = [Line("corr", "apply", ["boyd_split", a], res_split)]
+    lines = lines0 + [Line("corr", "apply", ["boyd_split", a], res_split)]
     if split is None:
         l = Line("pred", "P.C05.split", [a, a], note="boyd_split returned " + res_split)
         l.expect = "no-error-expected"
